@@ -102,7 +102,7 @@ type hSignPath struct{ path, escaped string }
 
 var hSignPaths = []hSignPath{{"", "/"}, {"/hook/v1", "/hook/v1"}, {"/a b", "/a%20b"}, {"/x?y", "/x%3Fy"}, {"/", "/"}, {"/hook/ä", "/hook/%C3%A4"}}
 
-// verif:harness props=C17,C07 tier=quick weight=70
+// verif:harness props=C17,C07 tier=quick weight=70 tonly=C17
 // verif:bounds body 2 symbolic bytes; URL path from 6 fixed paths (empty, "/", plain, space, '?', non-ASCII), each followed by a query string; clock from 2 fixed instants with sub-second parts (thorough 4); quick uses the first 4 paths; 2 secret versions with arbitrary windows; SHA-256 and HMAC as uninterpreted functions; (*http.Client).Do is a havoc stub
 func VerifC17SignedDelivery() {
 	instants := []time.Time{time.Unix(1, 0), time.Unix(1700000000, 0), time.Unix(1700000000, 999999999), time.Unix(4102444800, 5)}
